@@ -54,7 +54,8 @@ theorem C11_lookup (a b : Option String) : checkerKey a = checkerKey b ↔ a = b
 /-- the predicate the current source uses (re-extracted on every run) -/
 theorem C11_generated_good :
     Generated.hookShouldInstrument = "eq_or_dotted_prefix" ∧ Generated.hookInsertsAtFront = true ∧
-    Generated.hookUninstallRemoves = true ∧ Generated.hookOnlySourceLoaders = true := by decide
+    Generated.hookUninstallRemoves = true ∧ Generated.hookOnlySourceLoaders = true ∧
+    Generated.hookAlwaysTransforms = true := by decide
 
 /-! non-vacuity -/
 example : shouldInstrument ["foo".toList] "foo.bar".toList = true ∧ shouldInstrument ["foo".toList] "foobar".toList = false ∧
